@@ -11,6 +11,7 @@ import (
 	"encoding/base64"
 	"fmt"
 	"hash"
+	"strings"
 	"sync"
 
 	"github.com/beevik/etree"
@@ -203,12 +204,57 @@ func encryptedKeyEl(parent *etree.Element, e EncSpec, sym []byte) *etree.Element
 		if e.RecipCert == "garbage" {
 			dsEl(xd, "X509Certificate").SetText("!!!not base64!!!")
 		} else {
-			dsEl(xd, "X509Certificate").SetText(base64.StdEncoding.EncodeToString(world.Cert(e.RecipCert).Raw))
+			dsEl(xd, "X509Certificate").SetText(RecipCertText(e.RecipCert))
 		}
 	}
 	cd := xe(ek, "CipherData")
 	xe(cd, "CipherValue").SetText(base64.StdEncoding.EncodeToString(WrapKey(to, keyAlg, e.Digest, sym)))
 	return ek
+}
+
+// RecipCertText renders the recipient certificate named by spec: a key name, optionally
+// followed by "~variant" for a near miss of that certificate (valid base64 of other bytes):
+// caseswap (every base64 letter in the other case), firstletter, truncated (last DER byte
+// dropped), trailing (one byte appended), bitflip (last DER byte changed), wrapped (the very
+// certificate, its base64 broken into 64-column lines: the same bytes).
+func RecipCertText(spec string) string {
+	name, variant := spec, ""
+	if i := strings.Index(spec, "~"); i >= 0 {
+		name, variant = spec[:i], spec[i+1:]
+	}
+	der := append([]byte(nil), world.Cert(name).Raw...)
+	swap := func(r rune) rune {
+		switch {
+		case r >= 'a' && r <= 'z':
+			return r - 'a' + 'A'
+		case r >= 'A' && r <= 'Z':
+			return r - 'A' + 'a'
+		}
+		return r
+	}
+	switch variant {
+	case "truncated":
+		der = der[:len(der)-1]
+	case "trailing":
+		der = append(der, 0)
+	case "bitflip":
+		der[len(der)-1] ^= 1
+	}
+	text := base64.StdEncoding.EncodeToString(der)
+	switch variant {
+	case "caseswap":
+		text = strings.Map(swap, text)
+	case "firstletter":
+		text = string(swap(rune(text[0]))) + text[1:]
+	case "wrapped":
+		var b strings.Builder
+		for i := 0; i < len(text); i += 64 {
+			b.WriteString(text[i:min(i+64, len(text))])
+			b.WriteString("\n")
+		}
+		text = b.String()
+	}
+	return text
 }
 
 // EncryptedAssertionEl builds a saml:EncryptedAssertion around the given ciphertext pieces.
@@ -282,6 +328,37 @@ func StandaloneBytes(el *etree.Element) []byte {
 		panic(err)
 	}
 	return b
+}
+
+// RespellEA changes where the namespace prefixes of an EncryptedAssertion element (already placed
+// under root) are declared, without changing what it means: 1 = the saml prefix of the element
+// itself is declared on the root only; 2 = saml, xenc and ds are all declared on the root only;
+// 3 = the element is in a locally declared default namespace.
+func RespellEA(ea, root *etree.Element, style int) {
+	ensure := func(prefix, ns string) {
+		for _, a := range root.Attr {
+			if a.Space == "xmlns" && a.Key == prefix {
+				return
+			}
+		}
+		root.CreateAttr("xmlns:"+prefix, ns)
+	}
+	switch style {
+	case 1:
+		ea.RemoveAttr("xmlns:saml")
+		ensure("saml", NSA)
+	case 2:
+		ea.RemoveAttr("xmlns:saml")
+		ea.RemoveAttr("xmlns:xenc")
+		ea.RemoveAttr("xmlns:ds")
+		ensure("saml", NSA)
+		ensure("xenc", NSXE)
+		ensure("ds", NSDS)
+	case 3:
+		ea.RemoveAttr("xmlns:saml")
+		ea.Space = ""
+		ea.CreateAttr("xmlns", NSA)
+	}
 }
 
 // EncryptInPlace replaces el by its EncryptedAssertion in el's parent, at the same position.
